@@ -179,9 +179,13 @@ def mk_p3(N, D):
   def t(ctx, it):
     m, env = constructor_env(it)
     GEN["metrics_cls"] = m.TrainingMetrics
-    sz = spec.fresh_int("size", lo=1)
-    f, elem = fam("S", (sz, sz))
-    pf, pelem = fam("P", (sz, sz))
+    # every statistic has its OWN symbolic size s_k <= max_size (so its padding_start differs from its neighbours')
+    sz = spec.fresh_int("max_size", lo=1)
+    sizes = [spec.fresh_int(f"size{k}", lo=1) for k in range(N)]
+    for s_k in sizes:
+      ctx.assume(s_k <= sz)
+    fams = [fam(f"S{k}", (sizes[k], sizes[k])) for k in range(N)]
+    pfams = [fam(f"P{k}", (sizes[k], sizes[k])) for k in range(N)]
     ef = z3.Function("expo", z3.IntSort(), z3.IntSort())
     i_star = spec.fresh_int("i_star")
     j_star = spec.fresh_int("j_star")
@@ -207,8 +211,8 @@ def mk_p3(N, D):
       return pytree.tree_map(g, x)
 
     ctx.ghost[("all_gather", "batch")] = all_gather
-    statistics = [elem(k) for k in range(N)]
-    prev = [pelem(k) for k in range(N)]
+    statistics = [fams[k][1](k) for k in range(N)]
+    prev = [pfams[k][1](k) for k in range(N)]
     exponents = [SInt(ef(z3.IntVal(k))) for k in range(N)]
     PS = m.ParameterStats
     QV = it.load_module("precondition.quantization_utils").QuantizedValue
@@ -216,20 +220,23 @@ def mk_p3(N, D):
                  m.init_training_metrics(1, True)) for k in range(N)]
     step = spec.fresh_int("step", lo=0)
     new_states = env["_pmap_compute_preconditioners"](
-        states, T.asarray(step), statistics, [1] * N, [(sz, sz)] * N, exponents, sz, prev)
+        states, T.asarray(step), statistics, [1] * N, [(sizes[k], sizes[k]) for k in range(N)], exponents, sz, prev)
     tau = 0.1
-    i = spec.fresh_int("i")
-    j = spec.fresh_int("j")
-    ctx.assume(sym.sand(i >= 0, i < sz, j >= 0, j < sz))
     ctx.oblige("_pmap_compute_preconditioners.post.one-state-per-input-state", len(new_states) == N)
     for k in range(N):
+      i = spec.fresh_int(f"i{k}")
+      j = spec.fresh_int(f"j{k}")
+      ctx.assume(sym.sand(i >= 0, i < sizes[k], j >= 0, j < sizes[k]))
       got = new_states[k].preconditioners[0]
-      name = sym._as_real_z(statistics[k].at((i_star, j_star)))
-      want_root = SReal(RF(name, exponents[k].z, sz.z, i.z, j.z))
-      err = SReal(EF(name, exponents[k].z, sz.z))
+      ctx.oblige("_pmap_compute_preconditioners.post.slot-k-has-the-shape-of-statistic-k",
+                 sym.sand(got.shape[0] == sizes[k], got.shape[1] == sizes[k]), detail=f"N={N} D={D} k={k}")
+      # the root routine sees statistic k padded to max_size, ITS exponent and ITS padding start (= its true size)
+      name = sym._as_real_z(m.pad_square_matrix(statistics[k], sz).at((i_star, j_star)))
+      want_root = SReal(RF(name, exponents[k].z, sizes[k].z, i.z, j.z))
+      err = SReal(EF(name, exponents[k].z, sizes[k].z))
       keep = sym.sor(err >= tau)
       want = sym.ite(keep, prev[k].at((i, j)), want_root)
-      ctx.oblige(f"_pmap_compute_preconditioners.post.slot-k=gate(prev[k],Root(stat[k],expo[k],size[k]))-independent-of-D",
+      ctx.oblige(f"_pmap_compute_preconditioners.post.slot-k=gate(prev[k],Root(pad(stat[k]),expo[k],size[k]))-independent-of-D",
                  got.at((i, j)) == want, detail=f"N={N} D={D} k={k}")
 
   return t
